@@ -154,7 +154,11 @@ func worker(c *vf.Ctx, bin string, w, workers, nsets, nexpr int) {
 			}
 			ch := make(chan job)
 			var wg sync.WaitGroup
-			for k := 0; k < 4; k++ {
+			par := 4
+			if v := os.Getenv("C18_PAR"); v != "" {
+				fmt.Sscan(v, &par)
+			}
+			for k := 0; k < par; k++ {
 				wg.Add(1)
 				go func() {
 					defer wg.Done()
@@ -503,7 +507,7 @@ func (r *setRun) report(full, n *Node, mode string, p EvalParams, d *Diff, want,
 		r.c.Count("disagreements-known", 1)
 	}
 	if os.Getenv("C18_DEBUG") != "" {
-		fmt.Printf("DIFF set=%d %s\n  sig: %s\n  full: %s\n  expected: %s\n  got: %s\n", r.set.Index, what, sig, full.String(),
+		fmt.Printf("DIFF set=%d ingest=%s %s\n  sig: %s\n  full: %s\n  expected: %s\n  got: %s\n", r.set.Index, r.ingest, what, sig, full.String(),
 			strings.Join(want.render(6), "\n            "), strings.Join(got.render(6), "\n            "))
 	}
 }
